@@ -157,9 +157,12 @@ impl InitHeader {
 
         let payload_len = u16::from_be_bytes(payload_len_bytes.try_into().unwrap()).into();
         let data = if payload_len > Self::MAX_PAYLOAD_SIZE {
-            data
+            // the rest of the payload comes in continuation packets, ignore anything past the
+            // maximum size of an initialization packet
+            &data[..data.len().min(Self::MAX_PAYLOAD_SIZE)]
         } else {
-            &data[..payload_len]
+            // the declared payload must be present in this packet
+            data.get(..payload_len).ok_or(())?
         };
         Ok((
             Self {
@@ -311,6 +314,8 @@ enum ExtensionError {
     OutOfSequence,
     /// Packet is not of the same channel ID as the current message
     WrongChannel,
+    /// Packet carries fewer payload bytes than the message still expects from it
+    PacketTooShort,
 }
 
 /// Error occuring when trying to create a new message to send to a client
@@ -427,9 +432,15 @@ impl Message {
             let remaining_bytes = self.payload_len - self.payload.len();
             const MAX_CONT_PACKET_LEN: usize = MAX_PACKET_SIZE - ContHeader::HEADER_SIZE;
             if remaining_bytes <= MAX_CONT_PACKET_LEN {
-                self.payload.extend_from_slice(&data[..remaining_bytes]);
+                let data = data
+                    .get(..remaining_bytes)
+                    .ok_or(ExtensionError::PacketTooShort)?;
+                self.payload.extend_from_slice(data);
                 Ok(true)
             } else {
+                let data = data
+                    .get(..MAX_CONT_PACKET_LEN)
+                    .ok_or(ExtensionError::PacketTooShort)?;
                 self.payload.extend_from_slice(data);
                 Ok(false)
             }
